@@ -519,6 +519,18 @@ def rule_R6_evaluated(ctx, prj) -> bool:
                             bad = bad or (case, "an omitted-rows message is printed although nothing is omitted", "")
                         else:
                             ctx.discharged += 1
+            if not bad:
+                # the same report object listed twice: a short listing first must not change what the full listing shows
+                for repo in (False, True):
+                    try:
+                        again = RE.findings_again(lab, q, repo)
+                    except (Unknown, PyRaise) as e:
+                        ctx.info(f"R6: {key}: a second listing of the same report not evaluable ({e}); not judged")
+                        continue
+                    if again != list(range(12)):
+                        bad = (f"a report with 12 findings listed with full=False and then, the same report object, with full=True, repository={'present' if repo else 'absent'}",
+                               f"the second listing shows {again}; required all 12: the first listing changed what the report hands out", "/relisted")
+                        break
             if bad:
                 ctx.viol("R6", key + bad[2], fi.site(), f"{bad[0]}: {bad[1]}")
             else:
@@ -540,6 +552,11 @@ def run(ctx, prj: Project):
         "resolved by def-use. Rich's layout and locale formatting of numbers are run-time and not decided.")
     ctx.not_decided = ["the rendered text itself (Rich layout, ':n' locale formatting)"]
     ctx.trust("CPython ast", "parameter names *_current / *_previous / diff_report state the intended role")
+    from .c06 import rule_no_state_left
+    FT, FM = "codelimit.common.report.format_text", "codelimit.common.report.format_markdown"
+    rule_no_state_left(ctx, prj, "R7", [f"{FT}:print_totals", f"{FT}:print_findings", f"{FM}:print_totals", f"{FM}:print_findings",
+                                        "codelimit.commands.report:report_command", "codelimit.commands.findings:findings_command"],
+                       "the overview and findings renderers (text and Markdown, and the report / findings commands)")
     if rule_R6_evaluated(ctx, prj):
         # decided by evaluation; what evaluation does not show is kept from the structural rules: presence tests that
         # depend on emptiness (part of R1) are covered by the 'empty comparison report' scenario
